@@ -156,8 +156,14 @@ fn write(f: &mut Full, o: &Value) -> (Res, Value, Value) {
                     (Res::Ok(Default::default()), json!({"kind": "lair", "growth": s(c.growth_rate.atomics().u128()), "assets": c.bonding_assets.len().to_string()}), args) }
                 Err(e) => (Res::Rejected(e.to_string()), none(), args) }
         }
-        "collector.update_take" => { let t = growth_of(mv); (f.w.exec(&owner, &f.hub.collector.clone(), &white_whale_std::fee_collector::ExecuteMsg::UpdateConfig { owner: None, pool_router: None, fee_distributor: None, pool_factory: None, vault_factory: None,
-            take_rate: Some(Decimal::new(cosmwasm_std::Uint128::new(t))), take_rate_dao_address: None, is_take_rate_active: None }, &[]), none(), json!({"w": w, "family": "take", "v": s(t)})) }
+        "collector.update_take" | "collector.update_take+on" | "collector.update_take+off" | "collector.update_take+dao" => {
+            let t = growth_of(mv);
+            // what rides along with the rate: the on/off switch, or the address the take goes to
+            let switch = match w { "collector.update_take+on" => Some(true), "collector.update_take+off" => Some(false), _ => None };
+            let dao = if w == "collector.update_take+dao" { Some(f.w.owner.to_string()) } else { None };
+            (f.w.exec(&owner, &f.hub.collector.clone(), &white_whale_std::fee_collector::ExecuteMsg::UpdateConfig { owner: None, pool_router: None, fee_distributor: None, pool_factory: None, vault_factory: None,
+                take_rate: Some(Decimal::new(cosmwasm_std::Uint128::new(t))), take_rate_dao_address: dao, is_take_rate_active: switch }, &[]), none(), json!({"w": w, "family": "take", "v": s(t)}))
+        }
         _ => panic!("unknown write {w}"),
     }
 }
